@@ -19,6 +19,7 @@ REQUIRED = [
     "fact_reserved_covers_fields", "fact_empty_vp_checked", "fact_nonce_ttl_covers_window", "fact_ttls",
     "jar_parse_only_if", "jar_parse_remote_calls", "authorize_endpoint_only_if", "authorize_endpoint_error_leaves_state",
     "token_endpoint_only_if", "token_endpoint_other_grant_rejected",
+    "every_session_stems_from_a_signed_request", "code_token_traces_back_to_a_signed_request",
     "policy_load_exact", "s2s_scope_comes_from_a_policy_file", "policy_load_error_kinds", "fact_policy_loader",
     "fact_jar_parse_shape", "fact_jar_validate_shape", "fact_params_get", "fact_authorize_dispatch", "fact_token_dispatch", "fact_oauth_names",
     "fact_verifyvp_args", "fact_audience_exact", "fact_deciding_conditions", "fact_windows", "fact_store_prefixes_distinct", "fact_introspection_fields", "fact_access_token_init", "fact_introspection_init",
